@@ -75,9 +75,9 @@ static void run_unit(int n, char **lines) {
 
 /* numeric CFG line (the model reads the same numbers):
  *   CFG <boot> <nshutters> <late_us> <mode 0=unit 1=sys> [sys only: <btn_type> <btn_flags> <motor_mode> <up_ms> <down_ms>
- *        <startup_ms> <rsflags> <time1_ms> <time2_ms> <sentdefault>]
+ *        <startup_ms> <rsflags> <time1_ms> <time2_ms> <sentdefault> <button shutter mask> <1 + relay index of the extra button>]
  * board: shutter i = relays 2i (up, gpio 1+2i) and 2i+1 (down, gpio 2+2i), both on channel i;
- *        sys with buttons: shutter i < 3 has inputs 2i (gpio 9+2i -> up relay) and 2i+1 (gpio 10+2i -> down relay) */
+ *        sys with buttons: see a[14]/a[15] below (default: shutter i < 3 has input gpios 9+2i -> up relay, 10+2i -> down relay) */
 static void build_cfg(const char *line, char *out, size_t cap, int *mode) {
   long long a[16]; memset(a, 0, sizeof a); int na = 0;
   const char *p = line + 3;
@@ -95,10 +95,19 @@ static void build_cfg(const char *line, char *out, size_t cap, int *mode) {
   }
   if (*mode == 1) {
     if (a[4] > 0) {
+      /* a[14] = bit mask of the shutters that get a button pair (0 = shutters 0..2), at most three pairs: pair k uses
+       * input gpios 9+2k (-> up relay) and 10+2k (-> down relay); a[15] = 1 + index of one relay that gets a single
+       * extra button on input gpio 15 (INPUT_MAX_COUNT is 7) */
+      long long mask = a[14] ? a[14] : 7; int k = 0, first = 1;
       o += snprintf(out + o, cap - o, " inputs=");
-      for (int i = 0; i < n && i < 3; i++)
-        o += snprintf(out + o, cap - o, "%s%d:%lld:%lld:%d:255:0,%d:%lld:%lld:%d:255:0", i ? "," : "",
-                      9 + 2 * i, a[4], a[5], 1 + 2 * i, 10 + 2 * i, a[4], a[5], 2 + 2 * i);
+      for (int i = 0; i < n && k < 3; i++) {
+        if (!(mask >> i & 1)) continue;
+        o += snprintf(out + o, cap - o, "%s%d:%lld:%lld:%d:255:0,%d:%lld:%lld:%d:255:0", first ? "" : ",",
+                      9 + 2 * k, a[4], a[5], 1 + 2 * i, 10 + 2 * k, a[4], a[5], 2 + 2 * i);
+        k++; first = 0;
+      }
+      if (a[15] >= 1 && a[15] <= 2 * n)
+        o += snprintf(out + o, cap - o, "%s15:%lld:%lld:%lld:255:0", first ? "" : ",", a[4], a[5], a[15]);   /* relay index r has gpio r + 1 */
     }
     if (n > 0) {
       o += snprintf(out + o, cap - o, " motor=");
